@@ -65,6 +65,10 @@ def oas_props(draw):
     return out
 
 
+WRITER_STD = ("S_MAX_SIGNED_INTEGER_WIDTH", "S_MAX_UNSIGNED_INTEGER_WIDTH", "S_MAX_STRING_LENGTH", "S_POLYGON_MAX_VERTICES", "S_PATH_MAX_VERTICES", "S_TOP_CELL",
+              "S_BOUNDING_BOXES_AVAILABLE", "S_BOUNDING_BOX", "S_CELL_OFFSET")
+
+
 def rot_cycle(pts, k, rev):
     pts = pts[k % len(pts):] + pts[:k % len(pts)]
     return pts[::-1] if rev else pts
@@ -168,6 +172,13 @@ def case_strategy(draw, thorough=False):
                 for r in c["refs"]:
                     if r["kind"] == "name" and r["target"] == len(lib["cells"]) - 1:
                         r["kind"] = "cell"
+    # properties of cells and of the library itself
+    cellprops = {}
+    for i, c in enumerate(lib["cells"]):
+        if not c.get("outside") and draw(st.integers(0, 2)) == 0:
+            cellprops[str(i)] = draw(oas_props())
+    libprops = draw(oas_props()) if draw(st.booleans()) else []
+    lib["cellprops"], lib["libprops"] = cellprops, libprops
     flags = draw(st.integers(0, 255))
     if draw(st.integers(0, 3)) == 0:
         flags = draw(st.sampled_from([0, 0x30, 0x0F, 0x40, 0x80, 0xFF, 0x3F]))
@@ -189,6 +200,7 @@ def canon_dump(dump):
             "paths": sorted(repr((x["tag"], [q for i, q in enumerate([rp(p) for p in x["spine"]]) if i == 0 or q != rp(x["spine"][i - 1])], sorted(set(round(h, 6) for h in x["hw"])), x["end"], [round(v, 6) for v in x["ext"]], x["props"])) for x in paths),
             "labels": sorted(repr((x["tag"], x["text"], rp(x["pos"]), x["props"])) for x in labels),
             "refs": sorted(repr((x["target"], rp(x["pos"]), x["rot"], x["mag"], x["xr"], x["type"], x["props"])) for x in refs),
+            "props": [repr([p_ for p_ in om.dumped_props(c["props"]) if p_[0] not in WRITER_STD])],
         }
     return out
 
@@ -197,6 +209,9 @@ def check(ctx, case):
     lib = case["lib"]
     lines, qindex = lg.build_script(lib, "L")
     nq = len(qindex)
+    for i, props in sorted(lib.get("cellprops", {}).items()):
+        lines += lg.prop_lines("cell", "L.c%s" % i, props)
+    lines += lg.prop_lines("lib", "L", lib.get("libprops", []))
     path = ctx.path("rt.oas")
     unit = lib["unit"]
     ctol = case["circle_tol"]          # user units
@@ -238,6 +253,18 @@ def check(ctx, case):
         om.compare_library(lib, exp, d["lib"], ctol, rtol, ctx.stats)
     except Mismatch as m:
         fail(str(m))
+    # properties of cells and of the library (the writer's own standard properties are C04's subject)
+    got_lib = [p_ for p_ in om.dumped_props(d["lib"]["props"]) if p_[0] not in WRITER_STD]
+    if not om.props_same(om.canon_props(lib.get("libprops", [])), got_lib):
+        fail("library properties re-loaded as %s, saved %s" % (got_lib, om.canon_props(lib.get("libprops", []))))
+    byname = {bytes.fromhex(c["name"]).decode("latin-1"): c for c in d["lib"]["cells"]}
+    for i, c in enumerate(lib["cells"]):
+        if c.get("outside"):
+            continue
+        want_p = om.canon_props(lib.get("cellprops", {}).get(str(i), []))
+        got_p = [p_ for p_ in om.dumped_props(byname[c["name"]]["props"]) if p_[0] not in WRITER_STD]
+        if not om.props_same(want_p, got_p):
+            fail("properties of cell %r re-loaded as %s, saved %s" % (c["name"], got_p, want_p))
     # signature
     data = open(path, "rb").read()
     if flags & 0x40 or flags & 0x80:
